@@ -111,7 +111,7 @@ def run_harness(scripts, watchdog=10, stateless=False, env_extra=None, jobs=None
 def strip_alias(l):
     """`+alias` is a harness-only marker (two handle objects per script variable, see harness/djv_state.hpp): the
     model's handles are stateless, so the model runs the same line without it."""
-    return l.replace(" +alias", "")
+    return l.replace(" +alias", "").replace(" +sameref", "")
 
 
 def run_model_script(lines, timeout=600):
